@@ -6,7 +6,7 @@
      portsInUse      map[string]map[Port]string  ip  -> port -> svc
      servicesOnIP    map[string]map[string]bool  ip  -> set of svc
      poolIPsInUse    map[string]map[string]int   pool -> ip -> number of users
-     poolIPV4InUse / poolIPV6InUse               = poolIPsInUse restricted to one family
+     poolIPV4InUse / poolIPV6InUse               the same for the addresses of one family
 
    Transcribed: assign (unconditional), Unassign (the "len(portsInUse[ip]) == 0"
    rule, the "== 0" deletions of the counts, the "incoherent state" panic and the
@@ -53,11 +53,13 @@ Record mstate := {
   m_ports : list (ip * list (port * svc));       (* portsInUse *)
   m_svcs  : list (ip * list svc);                (* servicesOnIP (inner map as a set) *)
   m_use   : list (poolid * list (ip * Z));       (* poolIPsInUse *)
+  m_use4  : list (poolid * list (ip * Z));       (* poolIPV4InUse *)
+  m_use6  : list (poolid * list (ip * Z));       (* poolIPV6InUse *)
   m_panic : bool                                 (* a Go panic would have fired *)
 }.
 
 Definition m_init : mstate :=
-  {| m_pools := empty_pools; m_alloc := []; m_key := []; m_ports := []; m_svcs := []; m_use := []; m_panic := false |}.
+  {| m_pools := empty_pools; m_alloc := []; m_key := []; m_ports := []; m_svcs := []; m_use := []; m_use4 := []; m_use6 := []; m_panic := false |}.
 
 (* the abstraction: forget the derived maps *)
 Definition abs (m : mstate) : st := {| s_pools := m_pools m; allocated := m_alloc m |}.
@@ -70,6 +72,11 @@ Definition svcs_on (m : mstate) (x : ip) : list svc :=
   match aget ip_eqb x (m_svcs m) with Some l => l | None => [] end.
 Definition use_of (m : mstate) (n : poolid) : list (ip * Z) := inner (aget N.eqb n (m_use m)).
 Definition count (m : mstate) (n : poolid) (x : ip) : option Z := aget ip_eqb x (use_of m n).
+Definition use4_of (m : mstate) (n : poolid) : list (ip * Z) := inner (aget N.eqb n (m_use4 m)).
+Definition use6_of (m : mstate) (n : poolid) : list (ip * Z) := inner (aget N.eqb n (m_use6 m)).
+(* ip.To4() != nil / == nil *)
+Definition is4 (x : ip) : bool := fam_eqb (ip_fam x) F4.
+Definition is6 (x : ip) : bool := fam_eqb (ip_fam x) F6.
 (* m[k] of a map[..]int: 0 when absent *)
 Definition cnt (x : ip) (cm : list (ip * Z)) : Z := match aget ip_eqb x cm with Some c => c | None => 0%Z end.
 
@@ -94,6 +101,19 @@ Definition dec (x : ip) (cm : list (ip * Z)) : list (ip * Z) :=
   let cm1 := aset ip_eqb x (cnt x cm - 1)%Z cm in
   if (cnt x cm1 =? 0)%Z then adel ip_eqb x cm1 else cm1.
 
+(* the two family maps: only the map of the address's family is decremented
+   ([sel]), "if m[x] == 0 { delete(m, x) }" runs on both; reading a nil inner map
+   gives 0 and deleting from it is a no-op *)
+Definition zdel (x : ip) (cm : list (ip * Z)) : list (ip * Z) :=
+  if (cnt x cm =? 0)%Z then adel ip_eqb x cm else cm.
+Definition udec (sel : bool) (x : ip) (cm : list (ip * Z)) : list (ip * Z) :=
+  zdel x (if sel then aset ip_eqb x (cnt x cm - 1)%Z cm else cm).
+Definition use_unassign (n : poolid) (sel : bool) (x : ip) (um : list (poolid * list (ip * Z))) :=
+  match aget N.eqb n um with
+  | None => um
+  | Some cm => aset N.eqb n (udec sel x cm) um
+  end.
+
 (* one iteration of "for _, ip := range al.ips" in Unassign *)
 Definition unassign_ip (s : svc) (al : alloc) (m : mstate) (x : ip) : mstate :=
   let pm0 := aget ip_eqb x (m_ports m) in
@@ -117,11 +137,14 @@ Definition unassign_ip (s : svc) (al : alloc) (m : mstate) (x : ip) : mstate :=
               end in
   {| m_pools := m_pools m; m_alloc := m_alloc m; m_key := key2; m_ports := ports2; m_svcs := svcs1;
      m_use := use2;
-     m_panic := m_panic m || del_panics s (a_ports al) (inner pm0) || is_none (aget N.eqb (a_pool al) (m_use m)) |}.
+     m_use4 := use_unassign (a_pool al) (is4 x) x (m_use4 m);
+     m_use6 := use_unassign (a_pool al) (is6 x) x (m_use6 m);
+     m_panic := m_panic m || del_panics s (a_ports al) (inner pm0) || is_none (aget N.eqb (a_pool al) (m_use m))
+                || is_none (aget N.eqb (a_pool al) (if is4 x then m_use4 m else m_use6 m)) |}.
 
 Definition with_alloc (m : mstate) (l : list (svc * alloc)) : mstate :=
   {| m_pools := m_pools m; m_alloc := l; m_key := m_key m; m_ports := m_ports m; m_svcs := m_svcs m;
-     m_use := m_use m; m_panic := m_panic m |}.
+     m_use := m_use m; m_use4 := m_use4 m; m_use6 := m_use6 m; m_panic := m_panic m |}.
 
 Definition m_unassign (m : mstate) (s : svc) : mstate :=
   match aget N.eqb s (m_alloc m) with
@@ -134,6 +157,9 @@ Definition add_ports (s : svc) (ps : list port) (pm : list (port * svc)) : list 
   fold_left (fun pm p => aset port_eqb p s pm) ps pm.
 Definition add_svc (s : svc) (l : list svc) : list svc := if memN s l then l else s :: l.
 Definition inc (x : ip) (cm : list (ip * Z)) : list (ip * Z) := aset ip_eqb x (cnt x cm + 1)%Z cm.
+(* the inner map is created when nil; only the map of the address's family counts it *)
+Definition use_assign (n : poolid) (sel : bool) (x : ip) (um : list (poolid * list (ip * Z))) :=
+  aset N.eqb n (if sel then inc x (inner (aget N.eqb n um)) else inner (aget N.eqb n um)) um.
 
 (* one iteration of "for _, ip := range alloc.ips" in assign; a nil inner map is
    created empty before it is written *)
@@ -143,6 +169,8 @@ Definition assign_ip (s : svc) (al : alloc) (m : mstate) (x : ip) : mstate :=
      m_ports := aset ip_eqb x (add_ports s (a_ports al) (inner (aget ip_eqb x (m_ports m)))) (m_ports m);
      m_svcs := aset ip_eqb x (add_svc s (svcs_on m x)) (m_svcs m);
      m_use := aset N.eqb (a_pool al) (inc x (inner (aget N.eqb (a_pool al) (m_use m)))) (m_use m);
+     m_use4 := use_assign (a_pool al) (is4 x) x (m_use4 m);
+     m_use6 := use_assign (a_pool al) (is6 x) x (m_use6 m);
      m_panic := m_panic m |}.
 
 Definition m_assign (m : mstate) (s : svc) (al : alloc) : mstate :=
@@ -181,7 +209,7 @@ Definition m_assign_op (m : mstate) (s : svc) (r : req) (ips : list ip) : mstate
 (* ---------- SetPools ---------- *)
 Definition with_pools (m : mstate) (ps : pools) : mstate :=
   {| m_pools := ps; m_alloc := m_alloc m; m_key := m_key m; m_ports := m_ports m; m_svcs := m_svcs m;
-     m_use := m_use m; m_panic := m_panic m |}.
+     m_use := m_use m; m_use4 := m_use4 m; m_use6 := m_use6 m; m_panic := m_panic m |}.
 
 (* body of "for svc, alloc := range a.allocated" *)
 Definition rehome_step (ps : pools) (m : mstate) (e : svc * alloc) : mstate :=
@@ -252,7 +280,7 @@ Definition m_run (ops : list op) (m : mstate) : mstate := fold_left (fun m o => 
 
 (* ---------- counters (updatePoolStats): len of the per-family in-use maps ---------- *)
 Definition m_len_fam (m : mstate) (n : poolid) (f : fam) : Z :=
-  Z.of_nat (length (filter (fun e => fam_eqb (ip_fam (fst e)) f) (use_of m n))).
+  Z.of_nat (length (match f with F4 => use4_of m n | F6 => use6_of m n end)).
 
 Definition m_counters_for (m : mstate) (n : poolid) : counters :=
   match find_pool (m_pools m) n with
@@ -264,7 +292,7 @@ Definition m_counters_for (m : mstate) (n : poolid) : counters :=
 
 (* ---------- what a fresh controller rebuilds from the surviving assignments ---------- *)
 Definition m_fresh (ps : pools) : mstate :=
-  {| m_pools := ps; m_alloc := []; m_key := []; m_ports := []; m_svcs := []; m_use := []; m_panic := false |}.
+  {| m_pools := ps; m_alloc := []; m_key := []; m_ports := []; m_svcs := []; m_use := []; m_use4 := []; m_use6 := []; m_panic := false |}.
 Definition rebuild (a : st) : mstate :=
   fold_right (fun e m => m_assign m (fst e) (snd e)) (m_fresh (s_pools a)) (allocated a).
 
